@@ -72,6 +72,12 @@ def run(case):
             v = a[:, 1]
             v[1] = -9
         return {'a': a.tolist()}
+    if f == 'np_median':
+        return {'m': float(numpy.median(numpy.array(case['vals'])))}
+    if f == 'np_roll':
+        return {'r': numpy.roll(numpy.arange(12).reshape(3, 4), case['shift'], axis=case['axis']).tolist()}
+    if f == 'np_clip':
+        return {'r': numpy.clip(numpy.array([-4, -1, 0, 2, 3, 7]), case['lo'], case['hi']).tolist()}
     if f == 'np_where':
         wrap = lambda v: numpy.array(v) if isinstance(v, list) else v
         r = numpy.where(numpy.array(case['cond']), wrap(case['x']), wrap(case['y']))
